@@ -80,6 +80,15 @@ CHECKS = {
                  "extracted theorem predicate evaluated on the implementation's outputs."),
         "design_ref": "DESIGN.md section 7 C15",
     },
+    "C16": {
+        "text": ("Proved (oracle answers as explicit premises): the regenerated NOT_REG_NAME class is the RFC 3986 reg-name grammar; an ASCII "
+                 "non-IP host is stored lower-cased and build()/with_host() accept it iff it is a reg-name; encoding is idempotent on names; "
+                 "IP literals take the compressed spelling, IPv6 bracketed, zone verbatim; a stored host with ':' is always shown bracketed; "
+                 "the NFKC screen rejects. IDNA-encoded hosts (lower-case ASCII output) and 'decoded host re-encodes' are checked by extracted "
+                 "predicates on the implementation over a host corpus x 7 routes and all NFKC-hostile code points (thorough: every code point), "
+                 "not proved. Known finding F17 excluded."),
+        "design_ref": "DESIGN.md section 7 C16",
+    },
     "C17": {
         "text": ("Proved on the model for all authorities/schemes/ports: parsed ports lie in 0..65535 else ValueError, the default table is the "
                  "stated one, port falls back only when absent, 0 is not absent, is_default_port and str() elide exactly the default, "
